@@ -24,7 +24,7 @@ CONSTANTS Draws,         \* data draws per regression configuration
 VARIABLE cfg
 \* exact factorised-tensor semantics of C03, used for the theorems about the quantised contraction
 Fz == INSTANCE Factorized WITH MaxOrder <- 4, MaxDim <- 3, MaxRank <- 3, MaxSize <- 27, MaxCore <- 8,
-                               MaxP2J <- 3, MaxDim4 <- 2, cfg <- cfg
+                               MaxP2J <- 3, MaxDim4 <- 2, MaxRank4 <- 2, MaxBadSize <- 12, cfg <- cfg
 
 S == 1000000             \* quantisation scale of weights, factors, predictions
 AbsI(x) == IF x < 0 THEN -x ELSE x
